@@ -11,6 +11,9 @@ structure D where
   started : Bool := false
   /-- a flush function returned an error that no call of Flush / FlushWait has returned to the caller yet -/
   unreported : Bool := false
+  /-- commit point: what Commit told the caller and whether the primary is committed in the store -/
+  answer : Option Answer := none
+  pcommitted : Bool := false
   /-- result of the last commit/rollback: regions that got a ResolveLock, and whether it was a commit -/
   resolved : Option (List Region × Bool) := none
 
@@ -113,7 +116,21 @@ def chkRange (d : D) : String :=
   let sorted := (bad.map fun k => (k, ([] : Bytes))).foldr insertSorted []
   s!"FAIL outside-range {Bytes.toHex d.s.pStart} {Bytes.toHex d.s.pEnd} {",".intercalate (sorted.map fun e => Bytes.toHex e.1)}"
 
-def doCommit (d : D) (mem : Nat) (l1 l2 : Completion) : D × String :=
+def parseScript (s : String) : Option (List Attempt) :=
+  s.toList.mapM fun c => match c with
+    | 'x' => some Attempt.execLost | 'n' => some .lost | 'k' => some .keyErr | 'o' => some .ok | _ => none
+
+def chkAnswer (d : D) : String :=
+  match d.answer with
+  | none => "ok"
+  | some a =>
+    if answerMatchesOutcome a d.pcommitted then "ok"
+    else if a == .other then "FAIL answer-contradicts-outcome" else "FAIL answer-nil-not-committed"
+
+def doCommit (d : D) (mem : Nat) (l1 l2 : Completion) (script : List Attempt) : D × String :=
+  let fin (r : D × String) : D × String :=
+    -- every way out before the commit point: a definite error, nothing committed
+    ({ r.1 with answer := some (if r.2.startsWith "ok" then Answer.nil else .other) }, r.2)
   let (d1, o1) := apply d (.flush true mem l1)
   match o1 with
   | .flushed _ _ _ =>
@@ -123,14 +140,23 @@ def doCommit (d : D) (mem : Nat) (l1 l2 : Completion) : D × String :=
       if lostErr d2 then (d2, "FAIL lost-flush-error")
       else if d2.s.cfg.layer then
         match resolveRegions d2.s d2.splits true with
-        | none => (d2, "err empty-range")
+        | none => fin (d2, "err empty-range")
         | some rs =>
-          ({ d2 with resolved := some (rs, true) },
-           s!"ok range {Bytes.toHex d2.s.pStart} {Bytes.toHex d2.s.pEnd} regions {regionsStr rs} primary {Bytes.toHex d2.s.primary}")
+          -- commitFlushedMutations: commit the primary, then resolve the flushed range
+          let (c, res) := primaryCommit script false
+          let d3 := { d2 with pcommitted := c, answer := some (pipelinedAnswer res) }
+          match res with
+          | .ok =>
+            ({ d3 with resolved := some (rs, true) },
+             s!"ok range {Bytes.toHex d2.s.pStart} {Bytes.toHex d2.s.pEnd} regions {regionsStr rs} primary {Bytes.toHex d2.s.primary}")
+          | .err true => (d3, "err commit undetermined")            -- undetermined flag set: no cleanup
+          | .err false =>
+            let r := cleanupAfter d3 "err commit keyerr"
+            ({ r.1 with answer := some (pipelinedAnswer res) }, r.2)
       else (d2, "ok")
-    | _ => cleanupAfter d2 "err wait"
-  | .errFlush => cleanupAfter d1 "err flush"
-  | .errStaging => cleanupAfter d1 "err staging"
+    | _ => fin (cleanupAfter d2 "err wait")
+  | .errFlush => fin (cleanupAfter d1 "err flush")
+  | .errStaging => fin (cleanupAfter d1 "err staging")
   | _ => (d1, "bad-op")
 
 def doRollback (d : D) (l : Completion) : D × String :=
@@ -212,8 +238,14 @@ def step (d : D) (line : String) : D × String :=
   | ["cleanup"] => let (d, o) := apply d .cleanup; (d, outStr o)
   | ["commit", mem, r1, a1, r2, a2] =>
     match mem.toNat?, parseCompletion r1 a1, parseCompletion r2 a2 with
-    | some mem, some l1, some l2 => doCommit d mem l1 l2
+    | some mem, some l1, some l2 => doCommit d mem l1 l2 [.ok]
     | _, _, _ => (d, "bad-op")
+  | ["commit", mem, r1, a1, r2, a2, sc] =>
+    match mem.toNat?, parseCompletion r1 a1, parseCompletion r2 a2, parseScript sc with
+    | some mem, some l1, some l2, some script =>
+      if script.isEmpty then (d, "bad-op") else doCommit d mem l1 l2 script
+    | _, _, _, _ => (d, "bad-op")
+  | ["commit-clean", _, _, _, _, _, _] => (d, "ok")
   -- Commit of a transaction whose buffer is not dirty (observed on the implementation): returns nil at once
   | ["commit-clean", _, _, _, _, _] => (d, "ok")
   | ["rollback", r, a] =>
@@ -236,6 +268,7 @@ def step (d : D) (line : String) : D × String :=
   | ["chk-flush"] => (d, chkFlush d)
   | ["chk-covered"] => (d, chkCovered d)
   | ["chk-range"] => (d, chkRange d)
+  | ["chk-answer"] => (d, chkAnswer d)
   | _ => (d, "bad-op")
 
 def main : IO Unit := runDriver ({} : D) step
